@@ -34,6 +34,8 @@ func main() {
 		blockstressMain(os.Args[2:])
 	case "concstress":
 		concstressMain(os.Args[2:])
+	case "lockorder":
+		lockorderMain(os.Args[2:])
 	case "execiso":
 		execisoMain(os.Args[2:])
 	case "gcstress":
